@@ -16,7 +16,7 @@ src: conf.c
 tier: B
 bound: 20 concrete texts of <= 8 characters without back-quote and without %exec (near misses of the directive, the "name )" call form, names of 4 characters followed by " )"); line-buffer limit CONFIG_BUFF scaled to 32 bytes (stated re-binding, see units/C10/expand_b.c)
 unwind: 10
-flags: --unwindset strlen.0:14,strcpy.0:14,strcat.0:14,vb_a.0:12,spiftool_safe_strncpy.0:12,mk_str.0:6,strncasecmp.0:6,spifconf_shell_expand:2,spifconf_shell_expand.7:3,spifconf_shell_expand.10:8,spifconf_shell_expand.15:1,spifconf_shell_expand.21:1,spifconf_shell_expand.22:1,spifconf_shell_expand.23:1,spifconf_shell_expand.28:9,spifconf_shell_expand.29:9,has_exec_directive.0:9,check_spawn.0:9,check_spawn.1:10,harness.0:22,harness.1:10,harness.2:10
+flags: --unwindset strlen.0:14,strcpy.0:14,strcat.0:14,vb_a.0:12,spiftool_safe_strncpy.0:12,mk_str.0:6,strncasecmp.0:6,spifconf_shell_expand:2,spifconf_shell_expand.7:3,spifconf_shell_expand.10:8,spifconf_shell_expand.15:1,spifconf_shell_expand.21:1,spifconf_shell_expand.22:1,spifconf_shell_expand.23:1,spifconf_shell_expand.28:9,spifconf_shell_expand.29:9,has_exec_directive.0:9,check_spawn.0:34,check_spawn.1:34,harness.0:24,harness.1:24,harness.2:24,check_spawn.2:34
 objbits: 10
 backend: sat
 timeout: 900
